@@ -24,6 +24,9 @@ Oracles on the real code (independent of the model)
   batch    : mixed-regime batches (zero / large ill-conditioned / ordinary item): every item vs the same problem alone
   attributes / aliasing / dtype : public attributes of LQR, MPC, stepper unchanged by a call; tensors returned by earlier
              calls not modified by later ones; outputs in the dtype of the inputs
+Pass 2 (notes/C14.md): call / constructor spellings and defaults, failing calls (solver, user system, documented asserts)
+followed by more solves on the same objects, grad modes, deep / shallow / pickle / state_dict copies used interleaved,
+memory ownership of results, all extents in {1,2,3}^4, objects of different kinds interleaved, stepper spacing regimes.
 Hardening classes (notes/C14.md): deterministic corpus first (`corpus`, `mpc_corpus`), magnitudes to 1e6..1e8, object
 re-use with every per-call argument varied (x_init, u_traj/u_init value+presence+layout, dt, problem, batch size),
 in-place updates of caller-held tensors (system matrices, x_init, clock tensor), views (non-contiguous, slices of larger
@@ -131,6 +134,8 @@ HORIZONS = [1, 2, 3, 4, 5, 6, 8, 10, 13, 17, 20]
 NOMS = ["none", "zeros", ["rand", 1e-3, 0], ["rand", 1.0, 1], ["rand", 1.0, 2], ["rand", 30.0, 3], ["rand", 1e4, 4], "prev"]
 XVIEWS = ["contig", "contig", "noncontig", "slice"]
 UVIEWS = ["contig", "contig", "noncontig", "slice", "transposed"]
+FAILS = ["nonpd", "nonpd", "sys_raise", "sys_inject", "sys_inject", "x0_1d", "x0_dtype"]   # solver raising, user system raising, documented asserts
+COPIES = ["deepcopy", "copy", "pickle", "state_dict"]
 
 
 def gen_history(rng, case, nsolve=None):
@@ -158,9 +163,17 @@ def gen_history(rng, case, nsolve=None):
                 ops.append(["mutate", rng.choice([0.5, -1.0, 1.25]), rng.choice([2.0, -0.5, 1.0]), rng.choice([0.0, 0.75])])
             elif r < 0.9 and i > 0:
                 ops.append(["mutx0", rng.choice([-1.0, 0.5, 2.0]), rng.choice([0.0, 0.25])])
-        opts = {"xview": rng.choice(XVIEWS), "uview": rng.choice(UVIEWS), "prev_obj": rng.random() < 0.5}
+        r = rng.random()
+        if r < 0.22:
+            ops.append(["fail", rng.choice(FAILS), rng.randrange(1000)])
+        elif r < 0.34:
+            ops.append(["copy", rng.choice(COPIES)])
+        elif r < 0.42 and i > 0:
+            ops.append(["scribble"])
+        opts = {"xview": rng.choice(XVIEWS), "uview": rng.choice(UVIEWS), "prev_obj": rng.random() < 0.5,
+                "style": rng.choice(STYLES), "grad": rng.choice(GRADS)}
         if lti and rng.random() < 0.4:
-            opts["dt"] = rng.choice([1, 2, 0.5, 0.01])
+            opts["dt"] = rng.choice([1, 2, 0.5, 0.01, "tensor:2.0"])
         ops.append(["solve", rng.choice(NOMS) if i > 0 else rng.choice(NOMS[:-1]), opts])
     return ops
 
@@ -212,9 +225,15 @@ def corpus():
          ["otherx0", 77, 1e3], ["solve", "zeros", {"uview": "noncontig"}],
          ["clock", c["T"] + 1, "tensor"], ["newlqr"], ["solve", ["rand", 1.0, 1], {}],
          ["mutate", -1.0, 2.0, 0.75], ["solve", "none", {}], ["solve", "prev", {"prev_obj": True, "xview": "slice"}],
-         ["mutx0", -1.0, 0.25], ["solve", ["rand", 1.0, 2], {}], ["solve", "none", {}]])
+         ["mutx0", -1.0, 0.25], ["solve", ["rand", 1.0, 2], {"style": "kw", "grad": "no_grad"}], ["solve", "none", {"style": "bounds"}],
+         ["fail", "nonpd", 0], ["fail", "sys_raise", 0], ["fail", "sys_inject", 1], ["solve", "none", {}], ["fail", "sys_inject", c["T"]],
+         ["solve", ["rand", 1.0, 2], {}], ["fail", "sys_inject", 2 * c["T"] + 1], ["solve", ["rand", 30.0, 3], {"style": "mixed", "grad": "inference"}],
+         ["copy", "deepcopy"], ["fail", "x0_dtype"], ["solve", "zeros", {"style": "default_dt"}],
+         ["copy", "pickle"], ["scribble"], ["solve", ["rand", 1.0, 1], {"grad": "requires_grad"}], ["scribble"],
+         ["copy", "state_dict"], ["fail", "x0_1d"], ["copy", "copy"],
+         ["solve", "none", {"style": "kw"}]])
     for sysk in ("lti", "lti_shared", "ltv", "ltvc"):
-        for (Bn, T, ns, nc) in ((3, 1, 1, 1), (2, 2, 1, 2), (3, 3, 2, 1), (1, 5, 3, 2), (2, 20, 6, 6), (3, 8, 1, 6)):
+        for (Bn, T, ns, nc) in ((3, 1, 1, 1), (2, 3, 1, 2), (1, 5, 3, 2), (2, 20, 6, 6)):
             c = gen_lqr_case(rng, small=(Bn, T, ns, nc))
             c.update(sys=sysk, dtype="float64", c1="rand", extra=0 if T % 2 else 2, dt=1, mixed=Bn > 1, qexpand=True,
                      rho=min(c["rho"], 1.05) if T > 8 else c["rho"])
@@ -235,10 +254,26 @@ def corpus():
     c.update(sys="lti", dtype="float32", condQ=10, qscale=1, bscale=1, rho=0.9, pscale=1, x0scale=1, cscale=1, mixed=True, dt=1)
     c["ops"] = full_ops(c)
     out.append(c)
+    # SPECIFIC SIZES: every combination of batch, horizon, n_state, n_ctrl in {1,2,3} (coinciding extents hide or expose
+    # axis mix-ups), with a short history that re-uses the objects
+    k = 0
+    for Bn in (1, 2, 3):
+        for T in (1, 2, 3):
+            for ns in (1, 2, 3):
+                for nc in (1, 2, 3):
+                    c = gen_lqr_case(rng, small=(Bn, T, ns, nc))
+                    c.update(sys=("lti", "ltv", "lti_shared", "ltvc")[k % 4], dtype="float64", c1="rand", mixed=Bn > 1 and k % 2 == 0, dt=1,
+                             condQ=10, qscale=1, rho=0.9)
+                    c["ops"] = [["solve", ["rand", 1.0, 1], {"style": STYLES[k % len(STYLES)], "xview": XVIEWS[k % 4], "uview": UVIEWS[k % 5]}],
+                                ["clock", T + 2, "set"], ["solve", "none", {"grad": GRADS[k % len(GRADS)]}]]
+                    c["light"] = True
+                    out.append(c)
+                    k += 1
     # per-call dt on LTI systems
     c = gen_lqr_case(rng, small=(2, 5, 2, 2))
     c.update(sys="lti", dtype="float64", dt=1, mixed=False)
-    c["ops"] = [["solve", "none", {"dt": 2}], ["solve", ["rand", 1.0, 1], {"dt": 0.01}], ["solve", "prev", {"dt": 1, "prev_obj": True}]]
+    c["ops"] = [["solve", "none", {"dt": 2}], ["solve", ["rand", 1.0, 1], {"dt": 0.01}], ["solve", "prev", {"dt": 1, "prev_obj": True}],
+                ["solve", "zeros", {"dt": "tensor:2.0", "style": "kw"}]]
     out.append(c)
     return out
 
@@ -255,6 +290,7 @@ def gen_mpc_linear_case(rng, big=True):
     case["uinit"] = rng.choice(["none", ["rand", 1.0, 0], ["rand", 20.0, 1]])
     case["calls"] = rng.choice([1, 2, 3])
     case["shared_stepper"] = rng.random() < 0.25 and case["steps"] >= 2
+    mpc_variants(rng, case)
     case["mixed"] = False
     case["ops"] = []
     return case
@@ -274,7 +310,16 @@ def gen_mpc_nls_case(rng, big=True):
                 uinit=rng.choice(["none", ["rand", 0.3, 0], ["rand", 1.0, 1]]), calls=rng.choice([1, 1, 2, 3]),
                 data_seed=rng.randrange(1 << 30))
     case["shared_stepper"] = rng.random() < 0.25 and case["steps"] >= 2
+    mpc_variants(rng, case)
     return case
+
+
+def mpc_variants(rng, case):
+    """constructor spellings (default stepper, verbose) and per-call events (failing call, deep copy)"""
+    if rng.random() < 0.15:
+        case.update(default_stepper=True, steps=10, patience=5, decreasing=1e-3, tol=1e-5, shared_stepper=False)
+    case["verbose"] = rng.random() < 0.25
+    case["events"] = [rng.choice([[], [], ["fail"], ["deepcopy"], ["fail", "deepcopy"]]) for _ in range(3)]
 
 
 def mpc_corpus():
@@ -286,14 +331,33 @@ def mpc_corpus():
     for steps, pat, shared, sysk in ((1, 1, False, "lti"), (2, 2, True, "ltv"), (5, 1, False, "ltvc"), (10, 5, True, "lti_shared"), (12, 3, False, "ltv")):
         c = gen_mpc_linear_case(rng)
         c.update(sys=sysk, steps=steps, patience=pat, shared_stepper=shared, calls=3, tol=-1e9, decreasing=1e-3, uinit=["rand", 20.0, 1],
-                 c1="rand")
+                 c1="rand", default_stepper=False, verbose=steps == 5, events=[["deepcopy"], ["fail"], ["fail", "deepcopy"]])
         out.append(c)
+    c = gen_mpc_linear_case(rng)
+    c.update(sys="lti", default_stepper=True, steps=10, patience=5, decreasing=1e-3, tol=1e-5, shared_stepper=False, calls=2, verbose=False,
+             events=[[], ["deepcopy"], []], uinit="none")
+    out.append(c)
+    # SPECIFIC SIZES for MPC (single batch): horizon, n_state, n_ctrl in {1,2,3}
+    k = 0
+    for T in (1, 2, 3):
+        for ns in (1, 2, 3):
+            for nc in (1, 2, 3):
+                c = gen_mpc_linear_case(rng)
+                c.update(T=T, ns=ns, nc=nc, sys=("lti", "ltv", "ltvc")[k % 3], c1="rand", rho=0.9, condQ=10, qscale=1, steps=3, patience=5, tol=-1e9,
+                         decreasing=1e-3, shared_stepper=False, default_stepper=False, verbose=False, calls=2, events=[[], [], []], extra=1)
+                out.append(c)
+                k += 1
     for steps, pat, shared, amp, phi, T in ((1, 1, False, 0.3, 1.0, 3), (3, 2, True, 1.0, 2.0, 4), (8, 5, False, 0.2, 0.5, 5), (12, 3, True, 0.05, 1.0, 2),
                                             (4, 5, False, 1.5, 1.0, 6), (6, 2, False, 0.3, 2.0, 1)):
         c = gen_mpc_nls_case(rng)
         c.update(steps=steps, patience=pat, shared_stepper=shared, amp=amp, phi=phi, T=T, calls=3, tol=-1e9, decreasing=1e-3,
-                 uinit=["rand", 1.0, 1], x0scale=1, pscale=1)
+                 uinit=["rand", 1.0, 1], x0scale=1, pscale=1, default_stepper=False, verbose=steps == 8,
+                 events=[["fail"], ["deepcopy"], ["fail", "deepcopy"]])
         out.append(c)
+    c = gen_mpc_nls_case(rng)
+    c.update(default_stepper=True, steps=10, patience=5, decreasing=1e-3, tol=1e-5, shared_stepper=False, calls=2, verbose=False,
+             events=[[], ["fail"], []], T=3, amp=0.3, phi=1.0)
+    out.append(c)
     return out
 
 
@@ -409,6 +473,19 @@ def sys_tensors(system):
     return [(n, b) for n, b in system.named_buffers() if n != "_t"]
 
 
+def try_deepcopy(obj, ctx=None):
+    """copy.deepcopy, or None when torch refuses because the object still holds tensors of an autograd graph (after a
+    solve with requires_grad operands the modules keep their last state / trajectories; clean-tree behaviour, notes)"""
+    try:
+        return copy.deepcopy(obj)
+    except RuntimeError as e:
+        if "deepcopy protocol" in str(e):
+            if ctx is not None:
+                ctx.count("copy.deepcopy.unsupported-after-grad-solve")
+            return None
+        raise
+
+
 def safe_clock(system):
     try:
         return int(system.systime)
@@ -462,14 +539,8 @@ def call_lqr(lq, xv, dt_call, ut, style, Bn, T, nc):
     return lq(xv, dt_call) if ut is None else lq(xv, dt_call, ut)
 
 
-def known_param_poison(kf, case):
-    """known-findings matcher: site System.forward, inputs that are nn.Parameter (state/input registered as parameters)"""
-    return ("dynamics.py" in str(kf.get("site", "")) and "Parameter" in str(kf.get("predicate", ""))
-            and isinstance(case.get("focus"), list) and case["focus"] and case["focus"][0] == "param_x0")
-
-
 def solve_opts(op):
-    o = {"dt": None, "xview": "contig", "uview": "contig", "prev_obj": False, "style": "pos", "grad": "plain", "uparam": False}
+    o = {"dt": None, "xview": "contig", "uview": "contig", "prev_obj": False, "style": "pos", "grad": "plain"}
     if len(op) > 2 and isinstance(op[2], dict):
         o.update(op[2])
     return o
@@ -482,8 +553,17 @@ def run_lqr_case(ctx: Ctx, case, lines, metas):
     dt_t = getattr(torch, case["dtype"])
     eps = eps_of(case)
     refs = [U.make_ref(prob, b, T) for b in range(Bn)]
-    system = U.make_system(case, prob)
-    lq = U.make_lqr(case, prob, system)
+    try:
+        system = U.make_system(case, prob)
+        lq = U.make_lqr(case, prob, system)
+        if (lq.T, tuple(lq.n_batch), tuple(lq.Q.shape), tuple(lq.p.shape)) != (T, (Bn,), (Bn, T, ns + nc, ns + nc), (Bn, T, ns + nc)):
+            ctx.fail(case, f"constructor: LQR(Q {case['qshape']}) has T={lq.T}, n_batch={tuple(lq.n_batch)}, Q{tuple(lq.Q.shape)}, p{tuple(lq.p.shape)}")
+            return False
+    except common.InfraError:
+        raise
+    except Exception as e:
+        ctx.fail(case, f"raises: constructing the system / LQR(Q {case['qshape']}, expanded={bool(case.get('qexpand'))}) raised {type(e).__name__}: {str(e)[:160]}")
+        return False
     x0 = torch.tensor(prob["x0"], dtype=dt_t)
     prev_u, prev_obj, first, nsolve, modelled, last_out = None, None, None, 0, False, None
     kept = Kept()
@@ -545,16 +625,17 @@ def run_lqr_case(ctx: Ctx, case, lines, metas):
                             lq(x0[0], case["dt"])
                         elif why == "x0_dtype":
                             lq(x0.to(torch.float32 if dt_t == torch.float64 else torch.float64), case["dt"])
-                        elif why == "x0_ns":
-                            lq(torch.zeros(Bn, ns + 1, dtype=dt_t), case["dt"])
-                        elif why == "u_T":
-                            lq(x0, case["dt"], torch.zeros(Bn, T + 1, nc, dtype=dt_t))
-                        elif why == "u_nc":
-                            lq(x0, case["dt"], torch.zeros(Bn, T, nc + 1, dtype=dt_t))
                         elif why == "nonpd":
                             Qb = torch.tensor(prob["Q"], dtype=dt_t)
                             Qb[:, 0] = -Qb[:, 0]             # indefinite at t = 0: Cholesky fails in the LAST backward iteration
                             U.pp().module.LQR(system, Qb, torch.tensor(prob["p"], dtype=dt_t), T)(x0, case["dt"])
+                        elif why == "sys_inject" and prob["tv"]:
+                            # the user's A_t raises in the middle of a solve on THIS LQR object (roll-out, backward or forward pass)
+                            system.fail_at = op[2] % (3 * T)
+                            try:
+                                lq(x0, case["dt"])
+                            finally:
+                                system.fail_at = -1
                         elif why == "sys_raise" and prob["tv"]:
                             T2 = L + 1                      # the clock-indexed tables end before the horizon: IndexError mid roll-out
                             c2 = dict(case, T=T2, qshape="full", mixed=False)
@@ -566,25 +647,6 @@ def run_lqr_case(ctx: Ctx, case, lines, metas):
                 if snap.changed() or lqr_attrs(lq) != att:
                     ctx.fail(dict(case, focus=op), f"atomicity: a failing call ({why}: {raised}) changed {snap.changed() or 'the LQR attributes'}")
                     ok = False
-            elif kind == "param_x0":
-                # DUCK TYPES + ATOMICITY: x_init given as nn.Parameter on fresh objects, then a plain solve on the same objects
-                sysp = U.make_system(case, prob)
-                lqp = U.make_lqr(case, prob, sysp)
-                first_exc = None
-                try:
-                    xp_, up_, cp_ = lqp(torch.nn.Parameter(x0.detach().clone()), case["dt"])
-                    ok &= check_solution(ctx, dict(case, focus=op), prob, refs, xp_, up_, cp_, "solve with x_init given as nn.Parameter")
-                except Exception as e:
-                    first_exc = f"{type(e).__name__}: {str(e)[:100]}"
-                try:
-                    xp_, up_, cp_ = lqp(x0, case["dt"])
-                    ok &= check_solution(ctx, dict(case, focus=op), prob, refs, xp_, up_, cp_, "plain solve after a solve with an nn.Parameter x_init")
-                except Exception as e:
-                    ctx.fail(dict(case, focus=op), f"atomicity: after a solve with x_init given as nn.Parameter ({first_exc or 'which succeeded'}) every "
-                                                   f"later solve on the same system raises {type(e).__name__}: {str(e)[:120]}",
-                             known_matcher=known_param_poison)
-                    ok = False
-                ctx.count("lqr.op.param_x0")
             elif kind == "copy":
                 # COPIES OF OBJECTS follow their own law: solve on the copy, disturb the copy, the original is unaffected
                 mode = op[1]
@@ -688,15 +750,12 @@ def run_lqr_case(ctx: Ctx, case, lines, metas):
                     if ut is not None:
                         ut = ut.detach().clone().requires_grad_(True)
                         ubase = ut
-                elif o["uparam"] and ut is not None:         # u_traj given as an nn.Parameter
-                    ut = torch.nn.Parameter(ut.detach().clone())
-                    ubase = ut
                 snap = Snap([("x_init", xv), ("x_init buffer", xbase), ("u_traj", ut), ("u_traj buffer", ubase), ("Q", lq.Q), ("p", lq.p)]
                             + sys_tensors(system))
                 att = lqr_attrs(lq)
                 tag = (f"solve #{nsolve} (u_traj={op[1] if isinstance(op[1], str) else 'rand*%g' % op[1][1]}, clock at entry "
                        f"{safe_clock(system)}, dt={o['dt'] if o['dt'] is not None else case['dt']}, x_init {o['xview']}, u_traj {o['uview']}, "
-                       f"call style {o['style']}, grad mode {o['grad']}{', u_traj Parameter' if o['uparam'] else ''})")
+                       f"call style {o['style']}, grad mode {o['grad']})")
                 with warnings.catch_warnings(), grad_ctx(o["grad"]):
                     warnings.simplefilter("ignore")
                     x, u, cost = call_lqr(lq, xv, dt_call, ut, o["style"], Bn, T, nc)
@@ -722,7 +781,7 @@ def run_lqr_case(ctx: Ctx, case, lines, metas):
                     ok &= perturb_test(ctx, case, refs, u, tag, ubar=un)
                 tl = [refs[b].tols(None if un is None else un[b], eps) for b in range(Bn)]
                 if first is None:
-                    first = (x.detach().double().numpy(), u.detach().double().numpy(), cost.detach().double().numpy(), tl)
+                    first = (x.detach().double().numpy().copy(), u.detach().double().numpy().copy(), cost.detach().double().numpy().copy(), tl)
                     if not modelled:
                         modelled = True
                         # gains of the same nominal for the model comparison (fresh LQR object: no effect on the history)
@@ -738,8 +797,8 @@ def run_lqr_case(ctx: Ctx, case, lines, metas):
                         else:
                             for b in range(Bn):
                                 lines.append(U.lqr_line(case, prob, b, un, dt=1 if not isinstance(case["dt"], int) else case["dt"]))
-                                metas.append((case, b, first[0][b], first[1][b], float(first[2][b]), K[b].detach().double().numpy(),
-                                              k[b].detach().double().numpy(), refs[b], tl[b],
+                                metas.append((case, b, first[0][b], first[1][b], float(first[2][b]), K[b].detach().double().numpy().copy(),
+                                              k[b].detach().double().numpy().copy(), refs[b], tl[b],
                                               None if un is None else un[b]))
                         # MIXED-REGIME BATCH: every item against the same problem solved alone
                         if case.get("mixed") and Bn > 1 and good:
@@ -761,7 +820,7 @@ def run_lqr_case(ctx: Ctx, case, lines, metas):
                         if (du > C_TOL * eps * (tl[b][0] + first[3][b][0]) + 1e-300).any():
                             ctx.fail(case, f"history: {tag} differs from the first solve on the same system by {du.max():.3e} in u (item {b})")
                             ok = False
-                prev_u = u.detach().double().numpy()
+                prev_u = u.detach().double().numpy().copy()
                 prev_obj = u
                 last_out = (x, u, cost)
                 kept.add(f"solve #{nsolve}", x, u, cost)
@@ -863,7 +922,49 @@ def mpc_attrs(mpc):
     return (st.max_steps, st.patience, st.decreasing, st.tol, lqr_attrs(mpc.lqr))
 
 
-def mpc_call(ctx: Ctx, case, mpc, system, x0t, uin, uview, tag, steps_eff, kept: Kept):
+def build_mpc(case, system, Q, p, T):
+    """MPC construction through every spelling: explicit stepper (positional / keyword, verbose or not), default stepper
+    (`stepper=None` -> ReduceToBason(steps=10)), a second MPC object around the same stepper object"""
+    P = U.pp()
+    if case.get("default_stepper"):
+        mpc = P.module.MPC(system, Q, p, T) if case["data_seed"] % 2 else P.module.MPC(system, Q, p, T, stepper=None)
+        return mpc, mpc.stepper, case["steps"]
+    stepper = P.utils.ReduceToBason(case["steps"], case["patience"], case["decreasing"], case["tol"], bool(case.get("verbose"))) \
+        if case["data_seed"] % 3 == 0 else \
+        P.utils.ReduceToBason(steps=case["steps"], patience=case["patience"], decreasing=case["decreasing"], tol=case["tol"],
+                              verbose=bool(case.get("verbose")))
+    mpc = P.module.MPC(system, Q, p, T, stepper) if case["data_seed"] % 2 else P.module.MPC(system=system, Q=Q, p=p, T=T, stepper=stepper)
+    steps_eff = case["steps"]
+    if case.get("shared_stepper"):             # a second MPC object built around the same stepper object
+        mpc = P.module.MPC(system, Q, p, T, stepper=stepper)
+        steps_eff -= 1
+    return mpc, stepper, steps_eff
+
+
+def check_mpc_constructor(ctx: Ctx, case, mpc, stepper, steps_eff):
+    """what the constructor documents: the stepper given (or ReduceToBason with 10 steps, patience 5, decreasing 1e-3,
+    tol 1e-5 when none is given), one step of its budget reserved for the final solve"""
+    want = (steps_eff - 1, case["patience"], case["decreasing"], case["tol"])
+    got = (mpc.stepper.max_steps, mpc.stepper.patience, mpc.stepper.decreasing, mpc.stepper.tol)
+    if mpc.stepper is not stepper or got != want:
+        ctx.fail(case, f"constructor: MPC({'default stepper' if case.get('default_stepper') else 'explicit stepper'}) holds a stepper with "
+                       f"(max_steps, patience, decreasing, tol) = {got}, documented {want}")
+        return False
+    return True
+
+
+def call_mpc(mpc, xv, ut, style):
+    if style == "kw":
+        return mpc(dt=1, x_init=xv, u_init=ut, u_lower=None, u_upper=None, du=None)
+    if style == "mixed":
+        return mpc(1, xv, u_init=ut)
+    if style == "bounds":
+        lo = torch.full(tuple(xv.shape[:-1]) + (mpc.lqr.T, mpc.lqr.p.size(-1) - xv.size(-1)), -1e30, dtype=xv.dtype)
+        return mpc(1, xv, ut, lo, -lo, 1e30)
+    return mpc(1, xv, ut) if ut is not None else mpc(1, xv)
+
+
+def mpc_call(ctx: Ctx, case, mpc, system, x0t, uin, uview, tag, steps_eff, kept: Kept, style="pos", grad="plain"):
     """one `MPC.__call__` on the real code with the call-level oracles (purity incl. the buffers behind views, public
     attributes, loop structure, number of iterations against the documented stepper rules, earlier results intact)"""
     ut, ubase = (None, None) if uin is None else U.as_view(torch.tensor(uin), uview)
@@ -872,11 +973,24 @@ def mpc_call(ctx: Ctx, case, mpc, system, x0t, uin, uview, tag, steps_eff, kept:
     snap = Snap([("x_init", xv), ("x_init buffer", xbase), ("u_init", ut), ("u_init buffer", ubase), ("Q", mpc.lqr.Q), ("p", mpc.lqr.p)]
                 + sys_tensors(system))
     att = mpc_attrs(mpc)
+    if grad == "requires_grad":
+        xv = xv.detach().clone().requires_grad_(True)
+        xbase = xv
     try:
-        x, u, cost = mpc(1, xv, ut) if ut is not None else mpc(1, xv)
+        with contextlib.redirect_stdout(io.StringIO()), warnings.catch_warnings(), grad_ctx(grad):
+            warnings.simplefilter("ignore")
+            x, u, cost = call_mpc(mpc, xv, ut, style)
     finally:
         rec.close()
     ok = True
+    if all(isinstance(t, torch.Tensor) for t in (x, u, cost)):
+        others = [("x_init", xv), ("x_init buffer", xbase), ("u_init", ut), ("u_init buffer", ubase), ("LQR.Q", mpc.lqr.Q), ("LQR.p", mpc.lqr.p),
+                  ("LQR.x_traj", getattr(mpc.lqr, "x_traj", None)), ("LQR.u_traj", getattr(mpc.lqr, "u_traj", None))] + sys_tensors(system)
+        for nm, out in (("x", x), ("u", u), ("cost", cost)):
+            why = U.owns_memory(out, others + [(n2, o2) for n2, o2 in (("x", x), ("u", u), ("cost", cost)) if n2 != nm])
+            if why:
+                ctx.fail(case, f"ownership: {tag}: returned {nm} {why}")
+                ok = False
     if snap.changed():
         ctx.fail(case, f"purity: {tag}: MPC modified {snap.changed()}")
         ok = False
@@ -912,16 +1026,31 @@ def run_mpc_linear(ctx: Ctx, case, lines, metas):
         Q = Q[:, 0]
     if case["qshape"] in ("p2", "q3p2"):
         p = p[:, 0]
-    stepper = P.utils.ReduceToBason(steps=case["steps"], patience=case["patience"], decreasing=case["decreasing"], tol=case["tol"])
     ok = True
     kept = Kept()
     try:
-        mpc = P.module.MPC(system, Q, p, T, stepper=stepper)
-        steps_eff = case["steps"]
-        if case.get("shared_stepper"):             # a second MPC object built around the same stepper object
-            mpc = P.module.MPC(system, Q, p, T, stepper=stepper)
-            steps_eff -= 1
+        mpc, stepper, steps_eff = build_mpc(case, system, Q, p, T)
+        ok &= check_mpc_constructor(ctx, case, mpc, stepper, steps_eff)
+        twin = None
         for call in range(case["calls"]):
+            ev = (case.get("events") or [[]] * 3)[call % 3]
+            if "fail" in ev:
+                # a solver that raises inside an MPC on the same system (indefinite Q at t = 0), caught by the caller
+                att = mpc_attrs(mpc)
+                snapf = Snap(sys_tensors(system))
+                Qb = torch.tensor(prob["Q"]).clone()
+                Qb[:, 0] = -Qb[:, 0]
+                try:
+                    P.module.MPC(system, Qb, torch.tensor(prob["p"]), T)(1, torch.tensor(prob["x0"]))
+                except Exception:
+                    pass
+                if snapf.changed() or mpc_attrs(mpc) != att:
+                    ctx.fail(case, f"atomicity: a failing MPC solve on the same system changed {snapf.changed() or 'the other MPC object'}")
+                    ok = False
+                ctx.count("mpc.event.fail")
+            if "deepcopy" in ev:
+                twin = try_deepcopy(mpc, ctx)
+                ctx.count("mpc.event.deepcopy")
             # every per-call argument changes between calls: x_init, u_init (value, presence, memory layout)
             f = [1.0, -0.5, 3.0][call % 3]
             pcall = dict(prob, x0=prob["x0"] * f + (0.0 if call == 0 else 0.125))
@@ -930,14 +1059,25 @@ def run_mpc_linear(ctx: Ctx, case, lines, metas):
             uin = U.nominal(case, prob, case["uinit"] if call == 0 else [None, ["rand", 1.0, 10 + call], ["rand", 50.0, 20 + call]][call % 3])
             pc0 = int(stepper.patience_count)
             tag = f"MPC call #{call + 1} on a linear system"
+            style, grad = STYLES[(case["data_seed"] + call) % len(STYLES)], ["plain", "requires_grad", "no_grad"][(case["data_seed"] // 7 + call) % 3]
+            if twin is not None:
+                # the copy solves first, is then disturbed; the original must be unaffected (own stepper, own system, own clock)
+                g2, x2, u2, c2_, _, _ = mpc_call(ctx, case, twin, twin.lqr.system, x0t, uin, "contig", tag + " (deep copy)", steps_eff, Kept())
+                ok &= g2 and check_solution(ctx, case, pcall, refs, x2, u2, c2_, tag + " (deep copy)", ubar=uin)
+                twin.stepper.patience_count = 99
+                twin.lqr.system.systime = 4 if not prob["tv"] else 0
+                dict(twin.lqr.system.named_buffers())["_B"].mul_(3.0)
+                twin = None
             good, x, u, cost, rec, costs = mpc_call(ctx, case, mpc, system, x0t, uin, ["contig", "noncontig", "transposed"][call % 3],
-                                                    tag, steps_eff, kept)
+                                                    tag, steps_eff, kept, style=style if style != "default_dt" else "pos", grad=grad)
             ok &= good
             ok &= check_solution(ctx, case, pcall, refs, x, u, cost, tag, ubar=uin)
             nums, L = U.linear_nums(case, pcall, 0, uin)
-            lines.append(U.mpc_line(case, nums, L, uin is not None, steps_eff, case["patience"], pc0, case["decreasing"], case["tol"]))
-            metas.append((case, call, len(rec.calls) - 1, int(stepper.patience_count), x[0].double().numpy(), u[0].double().numpy(),
-                          float(cost[0]), (refs[0], refs[0].tols(None if uin is None else uin[0])), None))
+            meta = (case, call, len(rec.calls) - 1, int(stepper.patience_count), x[0].detach().double().numpy(), u[0].detach().double().numpy(),
+                    float(cost[0].detach()), (refs[0], refs[0].tols(None if uin is None else uin[0])), None)
+            line = U.mpc_line(case, nums, L, uin is not None, steps_eff, case["patience"], pc0, case["decreasing"], case["tol"])
+            lines.append(line)
+            metas.append(meta)
             ctx.count("mpc.linear.call")
             if call + 1 < case["calls"]:
                 # an LQR solve on the same system object between two MPC calls, clock left dirty
@@ -959,7 +1099,7 @@ def nls_feasible(ctx: Ctx, case, sp, x, u, cost, tag):
     if tuple(x.shape) != (1, T + 1, ns) or tuple(u.shape) != (1, T, nc) or tuple(cost.shape) != (1,):
         ctx.fail(case, f"shape: {tag}: returned shapes x{tuple(x.shape)} u{tuple(u.shape)} cost{tuple(cost.shape)}")
         return False
-    xn, un, cn = x[0].double().numpy(), u[0].double().numpy(), float(cost[0])
+    xn, un, cn = x[0].detach().double().numpy(), u[0].detach().double().numpy(), float(cost[0].detach())
     if not (np.isfinite(xn).all() and np.isfinite(un).all() and math.isfinite(cn)):
         ctx.fail(case, f"finite: {tag}: non-finite values returned")
         return False
@@ -1052,28 +1192,56 @@ def run_mpc_nls(ctx: Ctx, case, lines, metas):
             ctx.fail(case, f"shape: lqr_backward on the nonlinear system returned K{tuple(K.shape)} k{tuple(k.shape)}")
             ok = False
         else:
+            meta = (case, "nls", None, None, x[0].detach().double().numpy(), u[0].detach().double().numpy(), float(cost[0].detach()), sens,
+                    (K[0].detach().double().numpy(), k[0].detach().double().numpy()))
             lines.append(U.nls_line(case, sp, ub[0]))
-            metas.append((case, "nls", None, None, x[0].double().numpy(), u[0].double().numpy(), float(cost[0]), sens,
-                          (K[0].double().numpy(), k[0].double().numpy())))
+            metas.append(meta)
         ctx.count("nls.solve")
         # (b) MPC, several calls on one object, every per-call argument varied (x_init, u_init, its layout), an LQR solve
         # on the same system in between
-        stepper = P.utils.ReduceToBason(steps=case["steps"], patience=case["patience"], decreasing=case["decreasing"], tol=case["tol"])
-        mpc = P.module.MPC(system, Q, p, T, stepper=stepper)
-        steps_eff = case["steps"]
-        if case.get("shared_stepper"):
-            mpc = P.module.MPC(system, Q, p, T, stepper=stepper)
-            steps_eff -= 1
+        mpc, stepper, steps_eff = build_mpc(case, system, Q, p, T)
+        ok &= check_mpc_constructor(ctx, case, mpc, stepper, steps_eff)
         for call in range(case["calls"]):
             spc = dict(sp, x0=sp["x0"] * [1.0, -0.5, 1.5][call % 3] + (0.0 if call == 0 else 0.125))
             spec = case["uinit"] if call == 0 else [None, ["rand", 0.5, 10 + call], ["rand", 1.0, 20 + call]][call % 3]
             uin = U.nominal(fake, None, spec)
+            ev = (case.get("events") or [[]] * 3)[call % 3]
+            tag = f"MPC call #{call + 1} on the nonlinear system"
+            if "fail" in ev:
+                # ATOMICITY: the user's state_transition raises in the middle of this very call; the caller catches it and
+                # calls again — the retry must be what the call would have been (model line below, oracles)
+                att = mpc_attrs(mpc)
+                snapf = Snap(sys_tensors(system) + [("Q", mpc.lqr.Q), ("p", mpc.lqr.p)])
+                system.fail_at = case["data_seed"] % (3 * T + 2)
+                try:
+                    with contextlib.redirect_stdout(io.StringIO()):
+                        mpc(1, mk(spc["x0"])) if uin is None else mpc(1, mk(spc["x0"]), torch.tensor(uin))
+                    raised = False
+                except ArithmeticError:
+                    raised = True
+                system.fail_at = -1
+                if snapf.changed() or mpc_attrs(mpc) != att:
+                    ctx.fail(case, f"atomicity: {tag}: a call in which the user's system raised changed {snapf.changed() or 'public attributes of the MPC object'}")
+                    ok = False
+                ctx.count(f"mpc.event.fail.{'raised' if raised else 'completed'}")
+            twin = try_deepcopy(mpc, ctx) if "deepcopy" in ev else None
             pc0 = int(stepper.patience_count)
             system.reset(call * 5)
-            tag = f"MPC call #{call + 1} on the nonlinear system"
+            style, grad = STYLES[(case["data_seed"] + call) % len(STYLES)], ["plain", "requires_grad", "no_grad"][(case["data_seed"] // 7 + call) % 3]
             good, x, u, cost, rec, costs = mpc_call(ctx, case, mpc, system, mk(spc["x0"]), uin, ["contig", "noncontig", "transposed"][call % 3],
-                                                    tag, steps_eff, kept)
+                                                    tag, steps_eff, kept, style=style if style != "default_dt" else "pos", grad=grad)
             ok &= good
+            if twin is not None and good:
+                # COPIES: the deep copy (own system, own stepper, own clock) makes the same call after the original did and
+                # after the original's system was disturbed: same result
+                system.systime = 3
+                g2, x2, u2, c2_, _, _ = mpc_call(ctx, case, twin, twin.lqr.system, mk(spc["x0"]), uin, "contig", tag + " (deep copy)", steps_eff, Kept())
+                ok &= g2
+                if g2 and not (torch.allclose(x2.detach(), x.detach(), rtol=1e-9, atol=1e-12) and torch.allclose(u2.detach(), u.detach(), rtol=1e-9, atol=1e-12)):
+                    ctx.fail(case, f"copies: {tag}: a deep copy of the MPC object made before the call returns a different result for the same call "
+                                   f"(u differs by {float((u2.detach() - u.detach()).abs().max()):.3e})")
+                    ok = False
+                ctx.count("mpc.event.deepcopy")
             ok &= nls_feasible(ctx, case, spc, x, u, cost, tag)
 
             def one_mpc(spx, uin=uin):
@@ -1084,11 +1252,13 @@ def run_mpc_nls(ctx: Ctx, case, lines, metas):
                 xx, uu, _ = m2(*a)
                 return xx[0].double().numpy(), uu[0].double().numpy()
             sens = nls_sensitivity(case, spc, one_mpc)
-            lines.append(U.mpc_line(case, U.sin_nums(case, spc, None if uin is None else uin[0]), 0, uin is not None,
-                                    steps_eff, case["patience"], pc0, case["decreasing"], case["tol"]))
             fin = rec.calls[-1][0] if rec.calls else None
-            metas.append((case, call, len(rec.calls) - 1, int(stepper.patience_count), x[0].double().numpy(), u[0].double().numpy(),
-                          float(cost[0]), sens, (costs, spc, None if fin is None else fin[0].double().numpy())))
+            meta = (case, call, len(rec.calls) - 1, int(stepper.patience_count), x[0].detach().double().numpy(), u[0].detach().double().numpy(),
+                    float(cost[0].detach()), sens, (costs, spc, None if fin is None else fin[0].detach().double().numpy()))
+            line = U.mpc_line(case, U.sin_nums(case, spc, None if uin is None else uin[0]), 0, uin is not None,
+                              steps_eff, case["patience"], pc0, case["decreasing"], case["tol"])
+            lines.append(line)
+            metas.append(meta)
             ctx.count("mpc.nls.call")
             ctx.count(f"mpc.nls.iterations.{len(rec.calls) - 1}")
             if call + 1 < case["calls"]:
@@ -1200,26 +1370,52 @@ def compare_mpc_model(ctx: Ctx, reps, metas):
 
 # ----------------------------------------------------------------------------- stepper stream
 
+def stepper_corpus():
+    """SPACING REGIMES: loss sequences whose relative decrease sits below / just below / just above / above the
+    `decreasing` threshold, losses just below / above `tol`, either sign of the loss, budgets around the length"""
+    out = []
+    for dec in (1e-3, 0.5):
+        for delta in (-0.5, -1e-3, 1e-3, 0.5):
+            for base in (2.0, -3.0):
+                for pat in (1, 3):
+                    r = dec * (1 + delta)
+                    losses = [base]
+                    for _ in range(pat + 1):
+                        losses.append(losses[-1] / (1 + r))      # (last - loss)/loss == r
+                    for steps in (len(losses) - 1, len(losses) + 5):
+                        out.append((steps, pat, 0, dec, -1e9, losses))
+    for tol in (1e-5, 1.0, -5.0):
+        for delta in (-1e-3, 1e-3):
+            for steps in (1, 9):
+                out.append((steps, 5, 0, 1e-3, tol, [tol * (1 + delta) + (delta * 1e-3 if tol == 0 else 0.0), 3.0 * abs(tol) + 1.0]))
+    return out
+
+
 def run_stepper(ctx: Ctx, n):
     P = U.pp()
     rng = ctx.rng
     lines, metas = [], []
-    for i in range(n):
-        steps, pat, pc0 = rng.choice([0, 1, 2, 3, 5, 9]), rng.choice([1, 2, 3, 5]), rng.choice([0, 0, 1, 4, 7])
-        dec, tol = rng.choice([1e-3, 0.5, 1e-9]), rng.choice([1e-5, 1.0, -5.0])
-        m = rng.randint(1, 10)
-        base = rng.choice([-3.0, 0.5, 2.0, 100.0])
-        losses = []
-        for j in range(m):
-            r = rng.random()
-            if r < 0.3 and losses:
-                losses.append(losses[-1])
-            elif r < 0.5 and losses:
-                losses.append(losses[-1] * (1 - rng.choice([1e-6, 1e-2, 0.3])))
-            elif r < 0.6:
-                losses.append(0.0)
-            else:
-                losses.append(base * rng.uniform(0.2, 2.0) * rng.choice([1, 1, -1]))
+    fixed = stepper_corpus()
+    for i in range(len(fixed) + n):
+        if i < len(fixed):
+            steps, pat, pc0, dec, tol, losses = fixed[i]
+            m = len(losses)
+        else:
+            steps, pat, pc0 = rng.choice([0, 1, 2, 3, 5, 9]), rng.choice([1, 2, 3, 5]), rng.choice([0, 0, 1, 4, 7])
+            dec, tol = rng.choice([1e-3, 0.5, 1e-9]), rng.choice([1e-5, 1.0, -5.0])
+            m = rng.randint(1, 10)
+            base = rng.choice([-3.0, 0.5, 2.0, 100.0])
+            losses = []
+            for j in range(m):
+                r = rng.random()
+                if r < 0.3 and losses:
+                    losses.append(losses[-1])
+                elif r < 0.5 and losses:
+                    losses.append(losses[-1] * (1 - rng.choice([1e-6, 1e-2, 0.3])))
+                elif r < 0.6:
+                    losses.append(0.0)
+                else:
+                    losses.append(base * rng.uniform(0.2, 2.0) * rng.choice([1, 1, -1]))
         st = P.utils.ReduceToBason(steps=steps, patience=pat, decreasing=dec, tol=tol)
         st.reset()
         st.patience_count = pc0
@@ -1249,6 +1445,33 @@ def run_stepper(ctx: Ctx, n):
 
 
 # ----------------------------------------------------------------------------- run / search / replay
+
+def run_interleaved(ctx: Ctx, order_seed: int):
+    """MODULE-LEVEL STATE: objects of different dtype / system kind / size used alternately in one process, in several
+    orders; every solve against its own reference"""
+    import random
+    rng = random.Random(order_seed)
+    specs = [dict(small=(2, 3, 2, 1), sys="lti", dtype="float32"), dict(small=(3, 4, 3, 2), sys="ltv", dtype="float64"),
+             dict(small=(1, 2, 1, 3), sys="lti_shared", dtype="float64"), dict(small=(2, 3, 2, 1), sys="ltvc", dtype="float64")]
+    objs = []
+    for i, sp in enumerate(specs):
+        c = gen_lqr_case(random.Random(900 + i), small=sp["small"])
+        c.update(sys=sp["sys"], dtype=sp["dtype"], c1="rand", mixed=False, dt=1, condQ=10, qscale=1, bscale=1, rho=0.9, pscale=1, x0scale=1, cscale=1,
+                 ops=[["interleaved", order_seed]])
+        prob = U.build_problem(c)
+        system = U.make_system(c, prob)
+        objs.append((c, prob, system, U.make_lqr(c, prob, system), [U.make_ref(prob, b, c["T"]) for b in range(c["B"])]))
+    order = [0, 1, 0, 2, 1, 3, 0, 3, 2, 1] if order_seed == 0 else [rng.randrange(len(objs)) for _ in range(10)]
+    for n_, i in enumerate(order):
+        c, prob, system, lq, refs = objs[i]
+        try:
+            x, u, cost = lq(torch.tensor(prob["x0"], dtype=getattr(torch, c["dtype"])), 1)
+            check_solution(ctx, c, prob, refs, x, u, cost, f"interleaved use #{n_ + 1} (object {i}: {c['sys']}, {c['dtype']}; order {order})")
+        except Exception as e:
+            ctx.fail(c, f"raises: interleaved use #{n_ + 1} (object {i}; order {order}) raised {type(e).__name__}: {str(e)[:160]}")
+        ctx.count("interleaved.solve")
+    ctx.note_case(("interleaved", order_seed), True)
+
 
 def small_shapes():
     return [(Bn, T, ns, nc) for Bn in (1, 2, 3) for T in (1, 2, 3) for ns in (1, 2) for nc in (1, 2)]
@@ -1286,22 +1509,24 @@ def run(ctx: Ctx):
     for c in cases:
         c["corpus"] = True
     ctx.count("corpus.cases", len(cases))
+    run_interleaved(ctx, 0)
+    run_interleaved(ctx, 1 + ctx.seed)
     if os.environ.get("C14_ONLY_CORPUS"):      # rehearsal aid: what does the seed-independent part catch on its own?
         run_cases(ctx, cases)
         return
     # every small shape (batch 1..3 x T 1..3 x ns,nc 1..2): the D18 region and its neighbours
     for sh in small_shapes():
-        if ctx.quick and rng.random() < 0.5:
+        if ctx.quick and rng.random() < 0.75:       # (the corpus already sweeps all 81 extents in {1,2,3}^4)
             continue
         cases.append(gen_lqr_case(rng, small=sh))
-    for _ in range(ctx.pick(100, 2000)):
+    for _ in range(ctx.pick(70, 2000)):
         cases.append(gen_lqr_case(rng, big=True))
-    for _ in range(ctx.pick(22, 300)):
+    for _ in range(ctx.pick(16, 300)):
         cases.append(gen_mpc_linear_case(rng, big=not ctx.quick))
-    for _ in range(ctx.pick(20, 400)):
+    for _ in range(ctx.pick(14, 400)):
         cases.append(gen_mpc_nls_case(rng, big=not ctx.quick))
     run_cases(ctx, cases)
-    run_stepper(ctx, ctx.pick(100, 1000))
+    run_stepper(ctx, ctx.pick(60, 1000))
     ctx.notes.append("largest observed/allowed ratios: " + ", ".join(f"{k}={v:.3g}" for k, v in sorted(STAT.items())))
 
 
@@ -1332,6 +1557,12 @@ def replay(ctx: Ctx, case) -> bool:
     c = dict(case["case"])
     c.pop("focus", None)
     n0 = len(ctx.failures)
+    if c.get("ops") and c["ops"][0][0] == "interleaved":
+        n0 = len(ctx.failures)
+        run_interleaved(ctx, c["ops"][0][1])
+        for f in ctx.failures[n0:]:
+            print("  fails:", f["what"])
+        return len(ctx.failures) == n0
     if c.get("kind") == "stepper":
         P = U.pp()
         st = P.utils.ReduceToBason(steps=c["steps"], patience=c["patience"], decreasing=c["decreasing"], tol=c["tol"])
